@@ -15,6 +15,8 @@ from . import ast, exceptions
 RuleDecorator = TypeVar("RuleDecorator", bound=Callable[..., Any])
 
 _RWS = r"\s+"
+# A keyword must not be directly followed by something that continues an identifier:
+_KEYWORD_END = r"(?![\w.])"
 _INTEGER = r"[+-]?\d+"
 _DATE = r"[1-9]\d{3}-(?:0\d|1[0-2])-(?:[0-2]\d|3[01])"
 _TIME = r"(?:[01]\d|2[0-3]):[0-5]\d(:?:[0-5]\d(?:\.\d{1,12})?)"
@@ -189,13 +191,13 @@ class ODataLexer(Lexer):
         t.value = ast.Integer(t.value)
         return t
 
-    @_(r"true|false")
+    @_(r"(?:true|false)" + _KEYWORD_END)
     def BOOLEAN(self, t):
         ":meta private:"
         t.value = ast.Boolean(t.value)
         return t
 
-    @_(r"null")
+    @_(r"null" + _KEYWORD_END)
     def NULL(self, t):
         ":meta private:"
         t.value = ast.Null()
@@ -309,13 +311,13 @@ class ODataLexer(Lexer):
     ####################################################################################
     # Collection operators
     ####################################################################################
-    @_(r"any")
+    @_(r"any" + _KEYWORD_END)
     def ANY(self, t):
         ":meta private:"
         t.value = ast.Any()
         return t
 
-    @_(r"all")
+    @_(r"all" + _KEYWORD_END)
     def ALL(self, t):
         ":meta private:"
         t.value = ast.All()
